@@ -19,7 +19,10 @@ CHECKS['C06'] = {
             'non-trivial = body has at least one entry. producer: real keepstore handler with 3 volumes, one of which fails IndexTo after j entries (optionally mid-line); '
             'non-trivial = a volume fails. sweep: generated world (2-4 keepstores, 1-2 mounts each, 3-8 blocks, 1-6 collections) for which a fault-free Balancer.Run sends '
             'non-empty trash/pull lists (checked; otherwise discarded and counted as trivial); every request of the fault-free run x {500, 500 with intact body, connection error, 3 truncations, '
-            'malformed, interior blank line} is injected in a separate real Run. distinct = fingerprint of the generated table+schedule / body / volume plan / world.',
+            'malformed, interior blank line} is injected in a separate real Run. Round 3: additionally every index request of the sweep (ONE mount of ONE server, everything else healthy) '
+            'is answered with each status of {204,301,400,401,403,404,410,500,502,503} and a drawn body class {empty, intact index, "\\n" (well-formed empty index), error text} '
+            '(404 with all four classes), and every other fetch request with one drawn status of {400,...,503} x drawn body class; the index readers '
+            '(Index, IndexMount, GetIndex) are given every one of these statuses x body classes over loopback HTTP and must return an error. distinct = fingerprint of the generated table+schedule / body / volume plan / world.',
     'assumptions': [
         'the collections list API is simulated from its documented contract (filters, order, limit, count, include_trash, include_old_versions, select); the Rails implementation is not executed',
         'modified_at only moves forward: a modification or addition gets a timestamp greater than every existing one (events of one batch may share one timestamp)',
